@@ -1,30 +1,22 @@
 """Constant integer tables shared by the C memory model and the spec oracles.
 
-A table with given contents is ONE z3 array constant (named by a hash of the contents) plus the ground
-facts `T[k] == v_k`; two tables with equal contents are therefore the same term, and a lookup at a symbolic
-index needs no case split when code and spec look up the same index.
+A table is the uninterpreted function of engine.common.core.uf_table (named by a hash of the contents, ground
+axioms f(k) = v_k added by the pipeline to every query it occurs in): two tables with equal contents are the same
+symbol, and a lookup at a symbolic index needs no case split when code and spec look up the same index.
 """
-import hashlib
 import z3
 
-_T = {}
-
-
-def table(values):
-    vals = tuple(int(v) for v in values)
-    if vals not in _T:
-        h = hashlib.sha1(repr(vals).encode()).hexdigest()[:10]
-        arr = z3.Array("tbl!%s" % h, z3.IntSort(), z3.IntSort())
-        facts = [z3.Select(arr, k) == v for k, v in enumerate(vals)]
-        _T[vals] = (arr, facts)
-    return _T[vals]
+from ..common import core
 
 
 def select(values, idx, assume):
-    """values[idx]; `assume` receives the defining facts (once per call; callers dedupe)"""
+    """values[idx]; `assume` receives the ground axioms so that the engine's own feasibility checks know them too"""
     if isinstance(idx, int):
         return values[idx]
-    arr, facts = table(values)
-    for f in facts:
-        assume(f)
-    return z3.Select(arr, idx)
+    vals = [int(v) for v in values]
+    get = core.uf_table(vals)
+    term = get(idx)
+    f = term.decl()
+    for k, v in enumerate(vals):
+        assume(f(z3.IntVal(k)) == v)
+    return term
